@@ -70,6 +70,28 @@ Fixpoint rok (k : nat) (e : oexpr) : bool :=
   | _ => true
   end.
 
+(* the semantic reading of "fails clean" (what C05 proves of restore_on_err's output: Opt.Statement.fails_clean) *)
+Definition sem_clean (c : oexpr) : Prop :=
+  forall cfg uranges' fuel s a s', wf s -> Inv (stack s) a ->
+    exec cfg (vm_env OG uranges') fuel (vm_expr OG uranges' c) s = RErr s' -> cache (stack s') = cache (stack s).
+Definition cleanP (k : nat) (e : oexpr) : Prop := fclean k e = true \/ sem_clean e.
+
+(* `rok` with either reading of cleanliness at each alternative *)
+Fixpoint rokP (k : nat) (e : oexpr) : Prop :=
+  match e with
+  | OChoice l r => rokP k l /\ rokP k r /\ cleanP k l
+  | OOpt x | ORep x => rokP k x /\ cleanP k x
+  | OPosPred x | ONegPred x | ORepOnce x | OPush x | ONodeTag x _ | ORestoreOnErr x => rokP k x
+  | OSeq l r => rokP k l /\ rokP k r
+  | _ => True
+  end.
+
+Lemma rok_rokP k e : rok k e = true -> rokP k e.
+Proof.
+  induction e; cbn [rok rokP]; auto; intros H; repeat (apply andb_true_iff in H; destruct H as [H ?]);
+    repeat split; auto; left; assumption.
+Qed.
+
 Definition is_some {A} (o : option A) : bool := match o with Some _ => true | None => false end.
 
 (* identifiers: hard-coded names (PEEK/POP only when pp), defined rules, Unicode properties *)
@@ -117,7 +139,7 @@ Definition K : nat := List.length OG.
 Record grammar_ok : Prop := {
   go_nodup : NoDup (map oname OG);
   go_frag : forall r, In r OG -> in_fragment (oexpr_of r) = true;
-  go_rok : forall r, In r OG -> rok K (oexpr_of r) = true;
+  go_rok : forall r, In r OG -> rokP K (oexpr_of r);
   go_lits : forall r, In r OG -> lits_valid (oexpr_of r);
   (* the implicit-skip repetitions `WHITESPACE*` / `COMMENT*` go on after a failed call *)
   go_ws : has_orule OG (nm "WHITESPACE") = true -> fclean K (OIdent (nm "WHITESPACE")) = true;
